@@ -17,7 +17,7 @@ use alpha_g_detector::padwing::{
 };
 
 const MAXN: usize = 4;
-const MAXLEN: usize = 32;
+const MAXLEN: usize = 64;
 
 fn digit(code: usize, i: usize) -> usize {
     (code >> (3 * i)) & 7
